@@ -934,7 +934,7 @@ func (g *Gen) loopHeader(f *Frame, ci *cfgInfo, b *ssa.BasicBlock, preds []*ssa.
 	}
 	// loop-carried private slices (see privateSlices) are nil or backed by an array this activation allocated
 	if f.privSl == nil {
-		f.privSl = privateSlices(f.fn)
+		f.privSl = privateSlices(f.fn, g.freshCall)
 	}
 	for _, phi := range phis {
 		if f.privSl[phi] && f.entry != nil {
@@ -1013,13 +1013,16 @@ func isPrivateAlloc(a *ssa.Alloc) bool {
 // privateSlices: slice values of fn whose backing arrays were allocated by fn's own append calls and never
 // leave fn except by being returned: append results and loop-carried phis over them, used only by
 // append (as the slice appended to), len/cap, indexing, range and return.
-func privateSlices(fn *ssa.Function) map[ssa.Value]bool {
+func privateSlices(fn *ssa.Function, freshCall func(*ssa.Call) bool) map[ssa.Value]bool {
 	cand := map[ssa.Value]bool{}
 	for _, b := range fn.Blocks {
 		for _, ins := range b.Instrs {
 			switch v := ins.(type) {
 			case *ssa.Call:
 				if bi, ok := v.Call.Value.(*ssa.Builtin); ok && bi.Name() == "append" {
+					cand[v] = true
+				} else if _, isSl := types.Unalias(v.Type()).Underlying().(*types.Slice); isSl && freshCall != nil && freshCall(v) {
+					// the callee's contract promises a newly allocated slice: it is this activation's own from here on
 					cand[v] = true
 				}
 			case *ssa.Phi:
@@ -1041,7 +1044,9 @@ func privateSlices(fn *ssa.Function) map[ssa.Value]bool {
 			good := true
 			switch x := v.(type) {
 			case *ssa.Call:
-				good = ok(x.Call.Args[0])
+				if bi, isB := x.Call.Value.(*ssa.Builtin); isB && bi.Name() == "append" {
+					good = ok(x.Call.Args[0])
+				}
 			case *ssa.Phi:
 				for _, e := range x.Edges {
 					if !ok(e) {
@@ -1094,7 +1099,7 @@ func privateSlices(fn *ssa.Function) map[ssa.Value]bool {
 func (g *Gen) preservePrivate(f *Frame, old, nw *State, skip map[*ssa.Alloc]bool) {
 	for fr := f; fr != nil; fr = fr.parent {
 		if fr.privSl == nil {
-			fr.privSl = privateSlices(fr.fn)
+			fr.privSl = privateSlices(fr.fn, g.freshCall)
 		}
 		for v := range fr.privSl {
 			t, ok := fr.vals[v]
@@ -1293,6 +1298,28 @@ func (g *Gen) loopDebugVals(fn *ssa.Function, blocks []*ssa.BasicBlock) map[stri
 func neverReturns(c *Contract) bool {
 	for _, e := range c.Ensures {
 		if id, ok := e.Expr.(*ast.Ident); ok && id.Name == "false" {
+			return true
+		}
+	}
+	return false
+}
+
+// freshCall: the contract of the called function (or interface method) states isfresh(result).
+func (g *Gen) freshCall(c *ssa.Call) bool {
+	var ct *Contract
+	if c.Call.IsInvoke() {
+		ct = g.ifaceContract(&c.Call)
+	} else if fn, ok := c.Call.Value.(*ssa.Function); ok {
+		ct = g.contracts[funcKey(fn)]
+		if ct == nil {
+			ct = g.contracts["ext."+extName(fn)]
+		}
+	}
+	if ct == nil {
+		return false
+	}
+	for _, e := range ct.Ensures {
+		if strings.Contains(strings.ReplaceAll(e.Text, " ", ""), "isfresh(result)") && !strings.Contains(e.Text, "||") && !strings.Contains(e.Text, "implies") {
 			return true
 		}
 	}
